@@ -49,7 +49,10 @@ pub fn native_fn(ctx: &Ctx, name: &str, args: Vec<V>, line: u32) -> R<V> {
                 return ctx.fail(EK::Type, line);
             }
             match display_checked(&args[0]) {
-                Some(t) => ctx.sh.out.borrow_mut().push(t),
+                Some(t) => {
+                    ctx.charge_text(t.len())?;
+                    ctx.sh.out.borrow_mut().push(t)
+                }
                 None => return Err(Ctl::Discard("value prints to more than 64 KiB")),
             }
             Ok(V::Nil)
